@@ -32,6 +32,33 @@ TRIALS = [
     ("C03-6 Full keyed with the query", "src/comprash.rs", "            Self::None | Self::Full | Self::MaxAge(_) => false,\n            Self::QueryMatters => true,", "            Self::None | Self::MaxAge(_) => false,\n            Self::QueryMatters | Self::Full => true,", ["C04", "C03"]),
     ("C03-7 override key: insert under the request URI again", "src/lib.rs", "comprash::PathQuery::from(overide_uri.unwrap_or_else(|| request.uri()));", "comprash::PathQuery::from(request.uri());", ["C03"]),
     ("C03-9 unsafe path answered from the cache", "src/lib.rs", "            if sanitize_data.is_ok()\n                && matches!", "            if (sanitize_data.is_ok() || true)\n                && matches!", ["C03"]),
+    ("C03-11 PathQuery ==/hash look at `string` only (seeded/C03-3)", "src/comprash.rs",
+     "#[derive(Debug, PartialEq, Eq, Hash, Clone)]\n#[must_use]\npub struct PathQuery {\n    string: CompactString,\n    query_start: usize,\n}\n",
+     "#[derive(Debug, Clone)]\n#[must_use]\npub struct PathQuery {\n    string: CompactString,\n    query_start: usize,\n}\n"
+     "impl PartialEq for PathQuery {\n    fn eq(&self, other: &Self) -> bool {\n        self.string == other.string\n    }\n}\nimpl Eq for PathQuery {}\n"
+     "impl Hash for PathQuery {\n    fn hash<H: std::hash::Hasher>(&self, state: &mut H) {\n        self.string.hash(state);\n    }\n}\n", ["C03"]),
+    ("C03-12 UriKey: Path(p) == PathQuery(p, no query)", "src/comprash.rs",
+     ("#[derive(Debug, Clone, PartialEq, Eq, Hash)]\npub enum UriKey {", "impl UriKey {\n    /// Constructs a new [`UriKey`] from `uri`."),
+     ("#[derive(Debug, Clone)]\npub enum UriKey {",
+      "impl PartialEq for UriKey {\n    fn eq(&self, other: &Self) -> bool {\n        match (self, other) {\n            (Self::Path(a), Self::Path(b)) => a == b,\n"
+      "            (Self::PathQuery(a), Self::PathQuery(b)) => a == b,\n"
+      "            (Self::Path(a), Self::PathQuery(b)) | (Self::PathQuery(b), Self::Path(a)) => b.query().is_none() && a.as_str() == b.path(),\n        }\n    }\n}\n"
+      "impl Eq for UriKey {}\nimpl Hash for UriKey {\n    fn hash<H: std::hash::Hasher>(&self, state: &mut H) {\n        match self {\n"
+      "            Self::Path(a) => { a.as_str().hash(state); \"\".hash(state) }\n"
+      "            Self::PathQuery(a) => { a.path().hash(state); a.query().unwrap_or(\"\").hash(state) }\n        }\n    }\n}\n"
+      "impl UriKey {\n    /// Constructs a new [`UriKey`] from `uri`."), ["C03"]),
+    ("C03-13 PathQuery from the percent-decoded target, split at its first '?'", "src/comprash.rs",
+     "impl From<&Uri> for PathQuery {\n    fn from(uri: &Uri) -> Self {\n        match uri.query() {",
+     "impl From<&Uri> for PathQuery {\n    fn from(uri: &Uri) -> Self {\n"
+     "        let target = match uri.query() { Some(q) => format!(\"{}?{}\", uri.path(), q), None => uri.path().to_string() };\n"
+     "        let decoded = percent_encoding::percent_decode_str(&target).decode_utf8_lossy().into_owned();\n"
+     "        let (dp, dq) = match decoded.split_once('?') { Some((p, q)) => (p, Some(q)), None => (decoded.as_str(), None) };\n"
+     "        if uri.path().contains('%') {\n            let mut string = CompactString::new(dp);\n            string.push_str(dq.unwrap_or(\"\"));\n"
+     "            return Self { string, query_start: dp.len() };\n        }\n"
+     "        match uri.query() {", ["C03"]),
+    ("C03-14 PathQuery: query_start counts the '?' (boundary shifted when there is a query)", "src/comprash.rs",
+     "                Self {\n                    string,\n                    query_start: uri.path().len(),\n                }",
+     "                Self {\n                    query_start: string.len().min(uri.path().len() + 1),\n                    string,\n                }", ["C03"]),
     ("C03-10 query ignored in PathQuery key", "src/comprash.rs", "                string.push_str(uri.path());\n                string.push_str(query);", "                string.push_str(uri.path());\n                let _ = query;", ["C03", "C04"]),
 ]
 
@@ -66,10 +93,13 @@ for name, f, old, new, checks in TRIALS:
         continue
     path = os.path.join(REPO, f)
     src = open(path).read()
-    if src.count(old) != 1:
-        print("## %s: PATTERN COUNT %d in %s — skipped" % (name, src.count(old), f), flush=True)
+    olds, news = (old, new) if isinstance(old, tuple) else ((old,), (new,))
+    if any(src.count(o) != 1 for o in olds):
+        print("## %s: PATTERN COUNT %s in %s — skipped" % (name, [src.count(o) for o in olds], f), flush=True)
         continue
-    src2 = src.replace(old, new)
+    src2 = src
+    for o, n in zip(olds, news):
+        src2 = src2.replace(o, n)
     if name.startswith("C03-5"):
         a = "            let cache_rejected = handle_cache_helpers::maybe_cache(\n                host,\n                server_cache,\n                path_query,"
         assert src2.count(a) == 1
